@@ -156,6 +156,7 @@ func genEpisode(seed uint64, e int, thorough bool) *Episode {
 // ---------------------------------------------------------------- one run
 
 type runOut struct {
+	Changed string // call kind whose returned string/slice was rewritten after it returned
 	Results [][]string
 	Stats   simsched.Stats
 	Counts  [][]uint32
@@ -211,8 +212,10 @@ func runOnce(f *Fix, ep *Episode, plan *simsched.Plan, nsites int, wantCounts bo
 	f.makeDilRun()
 	entropy.reset(ep.EntSeed)
 	out := &runOut{Results: make([][]string, n)}
+	helds := make([]*held, n)
 	for t := range out.Results {
 		out.Results[t] = make([]string, len(ep.Tasks[t]))
+		helds[t] = &held{}
 	}
 	simsched.ResetMidCall()
 	simsched.Setup(n, nsites, plan, true, 256)
@@ -228,7 +231,7 @@ func runOnce(f *Fix, ep *Episode, plan *simsched.Plan, nsites int, wantCounts bo
 				if i > 0 {
 					simsched.Boundary()
 				}
-				out.Results[t][i] = f.exec(c, priv[t])
+				out.Results[t][i] = f.exec(c, priv[t], helds[t])
 			}
 			simsched.Finish(t)
 		}(t)
@@ -243,6 +246,12 @@ func runOnce(f *Fix, ep *Episode, plan *simsched.Plan, nsites int, wantCounts bo
 	out.SiteHit = simsched.SiteHits()
 	out.Sw = simsched.Switches()
 	out.Shared = f.sharedDigest()
+	for _, h := range helds {
+		if c := h.changed(); c != "" {
+			out.Changed = c
+			break
+		}
+	}
 	return out
 }
 
@@ -449,6 +458,9 @@ func checkEpisode(seed uint64, e int, ep *Episode, st *Sites, K int, emit func(r
 	if A.Shared != shared0 {
 		addV("shared-input-modified", "baseline", "sequential", "a caller-owned shared object changed during a sequential run", pA)
 	}
+	if A.Changed != "" {
+		addV("returned-value-rewritten", "baseline", A.Changed, "a string/slice returned by "+A.Changed+" no longer holds what was returned once later calls had run (sequential run)", pA)
+	}
 	// baseline B: whole calls interleaved, reverse task order
 	pB := callBoundaryPlan(ep, rev)
 	emit(1, pB)
@@ -485,6 +497,9 @@ func checkEpisode(seed uint64, e int, ep *Episode, st *Sites, K int, emit func(r
 		}
 		if o.Shared != shared0 {
 			addV("shared-input-modified", "scheduled", p.Strategy, "a caller-owned shared object (input buffer or shared Dilithium key) changed during the run", p)
+		}
+		if o.Changed != "" {
+			addV("returned-value-rewritten", "scheduled", o.Changed, "a string/slice returned by "+o.Changed+" no longer holds what was returned once other calls had run", p)
 		}
 		for _, sw := range o.Sw {
 			if sw.MidCall && len(rep.Pairs) < 32 {
@@ -577,6 +592,9 @@ func replayRaw(path, sitesPath string) {
 	if A.Shared != shared0 {
 		vs = append(vs, Violation{Property: "C15", Oracle: "shared-input-modified", Where: "baseline"})
 	}
+	if A.Changed != "" {
+		vs = append(vs, Violation{Property: "C15", Oracle: "returned-value-rewritten", Where: "baseline", Detail: A.Changed})
+	}
 	B := runOnce(f, ep, callBoundaryPlan(ep, rev), ns, false)
 	if w, d := diffResults(A.Results, B.Results, ep); w != "" {
 		vs = append(vs, Violation{Property: "C15", Oracle: "history-dependent-result", Where: w, Detail: d})
@@ -589,6 +607,9 @@ func replayRaw(path, sitesPath string) {
 		}
 		if o.Shared != shared0 {
 			vs = append(vs, Violation{Property: "C15", Oracle: "shared-input-modified", Where: "scheduled"})
+		}
+		if o.Changed != "" {
+			vs = append(vs, Violation{Property: "C15", Oracle: "returned-value-rewritten", Where: "scheduled", Detail: o.Changed})
 		}
 		fmt.Fprintf(os.Stderr, "replay: yields=%d switches=%d midcall=%d trace=%x\n", o.Stats.Yields, o.Stats.Switches, o.Stats.MidCall, o.Stats.Trace)
 	}
